@@ -105,6 +105,7 @@ def gen():
     gen_chain(o)
     gen_pairs(o)
     gen_owned(o)
+    gen_alpha(o)
     gen_sanity(o)
     o.write()
 
@@ -234,7 +235,8 @@ def gen_step(o):
                     f"One guard operation from an arbitrary live {g}<B, A> state on {f.text} (guard built with {K['from_mut']} from arbitrary "
                     f"colours, then every element overwritten through DerefMut with an arbitrary colour b_i): {what}. {W_NOTE}",
                     body, list(dict.fromkeys([f"{K['trait']}::{K['from_mut']}", f"<{g} as DerefMut>::deref_mut"] + fns)),
-                    f.bound + " (original and current contents), all values", unwind=UNWIND)
+                    f.bound + " (original and current contents), all values", unwind=UNWIND,
+                    thorough=(op.startswith("then_") and f.n == 3))  # measured 19-43 s
 
 
 # ---------------------------------------------------------------------------------------------------------------------
@@ -293,7 +295,8 @@ def gen_chain(o):
                      "FromColorUnclampedMutGuard::then_into_color_mut", "FromColorUnclampedMutGuard::then_into_color_unclamped_mut",
                      "FromColorMut::from_color_mut", "FromColorUnclampedMut::from_color_unclamped_mut", "Drop for both guard types"],
                     f"chain depth {depth}, " + f.bound + ", all values", unwind=UNWIND,
-                    thorough=(depth == 4 and f.n == 3) or (depth == 3 and f.n == 3 and fl != "clamped"))
+                    # measured: unclamped chains keep the full 8-bit range through mul/div (23-151 s for len >= 2)
+                    thorough=(fl == "unclamped" and (f.single or f.n >= 2)) or (f.n == 3 and depth >= 3))
 
     # nested guards (each borrowed from the previous through DerefMut): restores step by step in reverse order
     nseq = ["B", "C", "A", "B"]
@@ -348,7 +351,9 @@ def gen_chain(o):
                     body, [f"{K['trait']}::{K['from_mut']}", f"<{K['guard']} as DerefMut>::deref_mut", f"<{K['guard']} as Deref>::deref",
                            f"<{K['guard']} as Drop>::drop"],
                     f"chain depth {depth}, " + f.bound + ", all values", unwind=UNWIND,
-                    thorough=(depth == 4 and f.n in (2, 3)) or (depth == 3 and f.n == 3))
+                    # measured: clamped 15-47 s, unclamped 35-398 s for the cases below
+                    thorough=(f.n == 3 or (f.n == 2 and depth >= 3)) if kind == "clamped" else
+                             not (f.n == 0 or (f.n == 1 and depth == 2)))
 
 
 # ---------------------------------------------------------------------------------------------------------------------
@@ -500,6 +505,49 @@ def gen_owned(o):
         ["<Vec<T> as IntoColor<Vec<U>>>::into_color", "<Vec<T> as IntoColorUnclamped<Vec<U>>>::into_color_unclamped",
          "<Box<[T]> as IntoColor<Box<[U]>>>::into_color", "<Box<[T]> as IntoColorUnclamped<Box<[U]>>>::into_color_unclamped"],
         "len = 2, 6 symbolic i8 components, all values", unwind=UNWIND)
+
+
+# ---------------------------------------------------------------------------------------------------------------------
+# a second layout class: transparent colours, ArrayCast::Array = [W; 4]
+def gen_alpha(o):
+    note = ("Component type: the harness wrapping-integer type W (wrapping i8 arithmetic, total division; c13_support.rs), "
+            "Aa = Alpha<Hsv<Srgb, W>, W>, Ba = Alpha<Hwb<Srgb, W>, W> (both ArrayCast::Array = [W; 4]).")
+    for kind, K in KIND.items():
+        conv = K["conv"]
+        o.harness(
+            f"c13_alpha_view_{kind}_n2",
+            f"Four-component layout: {K['from_mut']} from [Alpha<Hsv>] to [Alpha<Hwb>] on a slice of concrete length 2: the guard shows "
+            f"Ba::{conv}(a_i) (colour converted, alpha carried over{' and clamped' if kind == 'clamped' else ''}) at the original "
+            f"address/length; after an arbitrary overwrite of both elements through DerefMut, dropping the guard leaves Aa::{conv}(b_i). {note}",
+            j("let orig: [Aa; 2] = [any_alpha(), any_alpha()];",
+              "let cur: [Ba; 2] = [any_alpha(), any_alpha()];",
+              "let mut buf = orig;",
+              "let p0 = addr(buf.as_ptr());",
+              "kani::cover!(true);",
+              "{",
+              f"    let mut g = <[Ba]>::{K['from_mut']}(&mut buf[..]);",
+              "    assert!(g.len() == 2 && addr(g.as_ptr()) == p0);",
+              f"    for i in 0..2 {{ assert!(same_alpha(&g[i], &Ba::{conv}(orig[i]))); }}",
+              "    for i in 0..2 { g[i] = cur[i]; }",
+              "}",
+              f"for i in 0..2 {{ assert!(same_alpha(&buf[i], &Aa::{conv}(cur[i]))); }}"),
+            [f"<[Alpha<Hwb<Srgb, W>, W>] as {K['trait']}<[Alpha<Hsv<Srgb, W>, W>]>>::{K['from_mut']}",
+             f"<{K['guard']} as Deref>::deref", f"<{K['guard']} as DerefMut>::deref_mut", f"<{K['guard']} as Drop>::drop"],
+            "len = 2, 8 symbolic i8 components per buffer (original and current contents), all values", unwind=UNWIND)
+    o.harness(
+        "c13_alpha_vec_from_color_n2",
+        f"Four-component layout: Vec::<Alpha<Hwb>>::from_color(Vec<Alpha<Hsv>>) with 2 elements and capacity 3: same pointer, length and "
+        f"capacity, element for element Ba::from_color(a_i); the reinterpreted Vec is dropped normally at the end. {note}",
+        j("let orig: [Aa; 2] = [any_alpha(), any_alpha()];",
+          "let mut v: Vec<Aa> = Vec::with_capacity(3);",
+          "for i in 0..2 { v.push(orig[i]); }",
+          "let (p0, cap0) = (addr(v.as_ptr()), v.capacity());",
+          "kani::cover!(true);",
+          "let out: Vec<Ba> = Vec::<Ba>::from_color(v);",
+          "assert!(addr(out.as_ptr()) == p0 && out.len() == 2 && out.capacity() == cap0);",
+          "for i in 0..2 { assert!(same_alpha(&out[i], &Ba::from_color(orig[i]))); }"),
+        ["<Vec<Alpha<Hwb<Srgb, W>, W>> as FromColor<Vec<Alpha<Hsv<Srgb, W>, W>>>>::from_color", "palette::cast::map_vec_in_place"],
+        "len = 2, capacity = 3, 8 symbolic i8 components, all values", unwind=UNWIND)
 
 
 # ---------------------------------------------------------------------------------------------------------------------
